@@ -53,7 +53,41 @@ struct Outcome {
     signature: u64,
 }
 
+/// Calls to `apply` that have returned, over the whole process (progress signal for the stall monitor).
+static RETURNED: AtomicU64 = AtomicU64::new(0);
+/// Set while a steady-traffic history is running: the monitor only judges then.
+static IN_HISTORY: AtomicBool = AtomicBool::new(false);
+
+/// Steady traffic has no barrier at which a stall could be noticed from inside: a monitor thread watches the number
+/// of returned calls instead. No call returning for 20 s while a history is running (every closure takes
+/// microseconds) means callers are stuck in `apply`: reported as a violation, decided on progress, not on run time.
+fn start_stall_monitor(describe: String) {
+    std::thread::spawn(move || {
+        let (mut last, mut t_last) = (RETURNED.load(Ordering::SeqCst), std::time::Instant::now());
+        loop {
+            std::thread::sleep(std::time::Duration::from_millis(200));
+            let now = RETURNED.load(Ordering::SeqCst);
+            if now != last || !IN_HISTORY.load(Ordering::SeqCst) {
+                last = now;
+                t_last = std::time::Instant::now();
+            } else if t_last.elapsed().as_secs() >= 20 {
+                println!(
+                    "LOCKREPORT {{\"histories\": 1, \"ops\": {now}, \"thread_switches_in_final_orders\": 0, \"distinct_final_orders\": 0, \"violations\": 1, \"first\": [\"{describe}: no call to apply has returned for 20 s after {now} calls although threads are still calling it: callers are stuck in apply: deadlock\"], \"wall_s\": 0}}"
+                );
+                std::process::exit(1);
+            }
+        }
+    });
+}
+
 fn history(seed: u64, threads: usize, nlocks: usize, ops_per_thread: usize, miri: bool) -> Outcome {
+    IN_HISTORY.store(true, Ordering::SeqCst);
+    let out = history_inner(seed, threads, nlocks, ops_per_thread, miri);
+    IN_HISTORY.store(false, Ordering::SeqCst);
+    out
+}
+
+fn history_inner(seed: u64, threads: usize, nlocks: usize, ops_per_thread: usize, miri: bool) -> Outcome {
     let locks: Arc<Vec<StdLock<Vec<u64>>>> = Arc::new((0..nlocks).map(|_| StdLock::new(Vec::new())).collect());
     let inside: Arc<Vec<AtomicBool>> = Arc::new((0..nlocks).map(|_| AtomicBool::new(false)).collect());
     let clock = Arc::new(AtomicU64::new(1));
@@ -81,6 +115,7 @@ fn history(seed: u64, threads: usize, nlocks: usize, ops_per_thread: usize, miri
                     (pred, id, nonce)
                 });
                 let ret = clock.fetch_add(1, Ordering::SeqCst);
+                RETURNED.fetch_add(1, Ordering::Relaxed);
                 log.push(Op { lock: l, id, call, ret, pred: r.0, returned_id: r.1, returned_nonce: r.2, nonce });
             }
             log
@@ -90,6 +125,8 @@ fn history(seed: u64, threads: usize, nlocks: usize, ops_per_thread: usize, miri
     for h in handles {
         all.extend(h.join().expect("worker thread"));
     }
+    // all calls have returned: the offline check that follows is not traffic
+    IN_HISTORY.store(false, Ordering::SeqCst);
     let finals: Vec<Vec<u64>> = (0..nlocks).map(|l| locks[l].apply(|v| v.clone())).collect();
     check_history(&all, &finals, overlap.load(Ordering::SeqCst), vec![])
 }
@@ -350,6 +387,9 @@ fn main() {
         std::panic::set_hook(Box::new(|_| {}));
     }
     let t0 = std::time::Instant::now();
+    if !miri && !poison && bursts_n == 0 {
+        start_stall_monitor(format!("steady traffic ({threads} threads, {locks} locks, {ops} ops/thread, {histories} histories)"));
+    }
     let (mut total_ops, mut switches, mut nviol) = (0usize, 0u64, 0usize);
     let mut sigs = std::collections::BTreeSet::new();
     let mut first: Vec<String> = vec![];
